@@ -4,6 +4,9 @@
 //!   (op 1 bit-exact on Pythagorean edge vectors, op 2 to 1e-9 for every style, op 3 the join arc).
 //! laws: point-membership oracle (own flattening + own crossing-number winding, own distance to the
 //!   source path), exact ideal shapes for one- and two-segment polylines, contour closure, finiteness.
+#[cfg(feature = "libm")]
+#[allow(unused_imports)]
+use crate::util::ToSvgCompat;
 use crate::geom::*;
 use crate::util::{Out, Rng};
 use crate::{Law, Prop};
